@@ -16,11 +16,11 @@ type plan struct {
 	coreDepth int // A_core for depths fullDepth+1..coreDepth
 	// strDepth: every alphabet string in every slot for terms of depth
 	// <= strDepth (deeper terms carry only their tokens)
-	strDepth  int
+	strDepth int
 	// strCoreDepth: the same for terms of the A_core spaces (0 = strDepth)
 	strCoreDepth int
 	pairDepth    int // all pairs of slots x alphabet for depth <= pairDepth
-	alphabet  []string
+	alphabet     []string
 	// aliasSides: also visit, for every term with a side argument, the
 	// variant whose side argument has the same message strings as the
 	// wrapped error (same mark) but different annotation strings
@@ -110,10 +110,22 @@ func eachTerm(c *core.Ctx, r *core.Result, p plan, f func(t *tm.Term)) {
 	base += int64(len(ex))
 	// quirk pass (see tm.Op.QuirkOf)
 	for i, t := range tm.QuirkTerms() {
+		if q := tm.FindQuirk(t); q != nil && len(q.QuirkFor) > 0 && !contains(q.QuirkFor, c.ID) {
+			continue
+		}
 		if c.Mine(base + int64(i)) {
 			f(t)
 		}
 	}
+}
+
+func contains(l []string, s string) bool {
+	for _, x := range l {
+		if x == s {
+			return true
+		}
+	}
+	return false
 }
 
 // confirm re-evaluates a failing state: a violation is only reported when
@@ -171,7 +183,11 @@ func nonDefaultStrings(t *tm.Term) string {
 	t.EachSlot(func(k int, o *tm.Term, i int) {
 		tok := tm.Token(k)
 		if o.S[i] != tok {
-			parts = append(parts, fmt.Sprintf("%s.%s=%q", o.Op.Name, o.Op.Slots[i].Name, strings.ReplaceAll(o.S[i], tok, "")))
+			v := strings.ReplaceAll(o.S[i], tok, "")
+			if len(v) > 48 {
+				v = fmt.Sprintf("%s…(%d bytes)", v[:16], len(v))
+			}
+			parts = append(parts, fmt.Sprintf("%s.%s=%q", o.Op.Name, o.Op.Slots[i].Name, v))
 		}
 	})
 	return strings.Join(parts, ",")
